@@ -241,7 +241,8 @@ def _one_model(ctx, variant, rng, mg, quick, exact_rows):
                 # 2 f'/(3 e) elsewhere); the property speaks about fit results, so it is held to it there only
                 continue
             with _quiet():
-                vm.set_all(x0.tolist())
+                # the model holds OTHER values than the point handed over: the errors belong to `pdict`
+                vm.set_all((x0 + 0.6 * sig0 * np.array([(-1.0) ** k for k in range(n)])).tolist())
                 err = c.get_params_error(pdict, data=[data], phsp=[phsp], **kw)
                 V = np.array(c.inv_he)
             ctx.count(1, distinct_key=(tag, pname, mname))
